@@ -92,7 +92,6 @@ JudgeOk(r) ==
      THEN Verdict(r.rid, "H01", "dev", {"D22-arguments-evaluated-before-absent-callee-throws"}) ELSE TRUE
   \* ---- C01 (static half) : the symbolic order of effects of the output is that of the input
   /\ IF ~modified THEN Verdict(r.rid, "C01", "na", "not modified")
-     ELSE IF ~m.ok THEN Verdict(r.rid, "C01", "na", "C02 failed")
      ELSE IF r.in_mentions_ns THEN Verdict(r.rid, "C01", "na", "the input mentions the hook namespace")
      ELSE \E effOut \in {EffectsOf(rout, Injected(rout, rin), TRUE, {})} :
           \E diff \in {FirstEffectDiff(EffectsOf(rin, {}, FALSE, {}), effOut, 1)} :
